@@ -1,1 +1,89 @@
-def main : IO Unit := pure ()
+import NfcVerif.Model.Activate
+open NfcVerif NfcVerif.Activate
+
+/-! line protocol of the activation model (property C19)
+
+    act <tech:3 bits> <active 0|1> <given N|0|1|2> <13 tokens side I> <13 tokens side T> <nfcid3 hex> <rnd6 hex>
+        side = brs lri lrt rwt acm did nad miu lto lsc agf sec saps   (N = None, saps = a,b,c or -)
+    llc <miu> <lto> <lsc> <agf> <sec> <saps> <peer gb hex>
+-/
+
+def optInt (s : String) : Option (Option Int) :=
+  if s = "N" then some none else s.toInt?.map some
+
+def boolTok (s : String) : Option Bool :=
+  if s = "1" then some true else if s = "0" then some false else none
+
+def sapsTok (s : String) : Option (List Nat) :=
+  if s = "-" then some [] else (s.splitOn ",").mapM (·.toNat?)
+
+def parseLlc : List String → Option LlcOpts
+  | [miu, lto, lsc, agf, sec, saps] => do
+    pure ⟨← miu.toInt?, ← lto.toInt?, ← lsc.toInt?, ← boolTok agf, ← boolTok sec, ← sapsTok saps⟩
+  | _ => none
+
+def parseSide : List String → Option Side
+  | [brs, lri, lrt, rwt, acm, did, nad, miu, lto, lsc, agf, sec, saps] => do
+    let d : DepOpts := ⟨← brs.toInt?, ← lri.toInt?, ← lrt.toInt?, ← rwt.toInt?, ← boolTok acm, ← optInt did, ← optInt nad⟩
+    let l ← parseLlc [miu, lto, lsc, agf, sec, saps]
+    pure ⟨d, l⟩
+  | _ => none
+
+def b01 (b : Bool) : String := if b then "1" else "0"
+def showOptI : Option Int → String
+  | none => "N" | some v => toString v
+def showOptN : Option Nat → String
+  | none => "N" | some v => toString v
+
+def showLlc : Option LlcHeld → String
+  | none => "nolink"
+  | some h => s!"{h.recvMiu},{h.sendLto},{b01 h.agf},{b01 h.sec},{h.ver.1}.{h.ver.2},{h.sendMiu},{h.recvLto},{h.sendWks},{h.sendLsc},{h.dpc}"
+
+def showI : Py (Option (IHeld × Option LlcHeld)) → String
+  | .error e => "exc:" ++ e.name
+  | .ok none => "none"
+  | .ok (some (h, l)) =>
+    s!"{h.miu},{h.wt},{h.brty},{showOptI h.did},{showOptI h.nad},{b01 h.acm},{h.brs},{h.lri};{showLlc l}"
+
+def showT : Py (Option (THeld × Option LlcHeld)) → String
+  | .error e => "exc:" ++ e.name
+  | .ok none => "none"
+  | .ok (some (h, l)) =>
+    s!"{h.miu},{h.wt},{h.brty},{showOptN h.did},{b01 h.acm},{h.lrt};{showLlc l}"
+
+def showWire (w : List (Nat × Bytes)) : String :=
+  if w.isEmpty then "-" else ",".intercalate (w.map fun (b, d) => s!"{b}:{toHex d}")
+
+def techTok (s : String) (active : Bool) : Option AirCfg :=
+  match s.toList with
+  | [a, b, c] => some ⟨a == '1', b == '1', c == '1', active⟩
+  | _ => none
+
+def givenTok (s : String) : Option (Option Nat) :=
+  if s = "N" then some none else s.toNat?.map some
+
+def handle (line : String) : String :=
+  match line.splitOn " " with
+  | "act" :: tech :: active :: given :: rest =>
+    if rest.length ≠ 28 then "bad-op" else
+    match boolTok active with
+    | none => "bad-op"
+    | some act =>
+      match techTok tech act, givenTok given, parseSide (rest.take 13), parseSide ((rest.drop 13).take 13),
+            parseHex (rest.getD 26 ""), parseHex (rest.getD 27 "") with
+      | some air, some g, some i, some t, some id3, some rnd =>
+        let o := activate air g i t id3 rnd
+        s!"I={showI o.ini} T={showT o.tgt} W={showWire o.wire}"
+      | _, _, _, _, _, _ => "bad-op"
+  | ["llc", miu, lto, lsc, agf, sec, saps, gb] =>
+    match parseLlc [miu, lto, lsc, agf, sec, saps], parseHex gb with
+    | some o, some g =>
+      let sent := showPy toHex (encodeGb (sendPax o))
+      let link := match llcLink o g with
+        | .error e => "exc:" ++ e.name
+        | .ok l => showLlc l
+      s!"{sent} {link}"
+    | _, _ => "bad-op"
+  | _ => "bad-op"
+
+def main : IO Unit := runDriver handle
